@@ -1,3 +1,5 @@
+//go:build verifshadow
+
 package main
 
 import (
